@@ -230,6 +230,18 @@ def flatten(d):
     return out
 
 
+def effective(args, fname):
+    """what every rule is configured to do after the real loader ran with `args`: rule id -> ((attribute, value), ...), values
+    by value and in order (lists are order-sensitive: 'first matching exception wins')"""
+    cla = parse_args(["-f", fname] + list(args))
+    oConfig = config.New(cla)
+    lines, err = vhdlFile.utils.read_vhdlfile(fname)
+    oFile = vhdlFile.vhdlFile(lines, cla, fname, err, oConfig)
+    oRules = rule_list.rule_list(oFile, oConfig.severity_list, None)
+    apply_rules.configure_rules(oConfig, oRules, oConfig.dConfig, 0, fname)
+    return dict(hooks.cfg_digest(oRules.rules))
+
+
 def roundtrip_records(job, nid):
     recs = []
     work = job["work"]
@@ -270,8 +282,22 @@ def roundtrip_records(job, nid):
                             rc_ok = False
                     except Exception:
                         rc_ok = False
+        # the same EFFECTIVE configuration: what the rules hold in memory under (style, files) and under the emitted file alone
+        eff_same, eff_diff = True, []
+        if status == "ok" and sc.get("inputs"):
+            try:
+                with contextlib.redirect_stdout(io.StringIO()), contextlib.redirect_stderr(io.StringIO()):
+                    e1 = effective(base, sc["inputs"][0])
+                    e2 = effective(["-c", a], sc["inputs"][0])
+                for rid in sorted(e1):
+                    if e1[rid] != e2.get(rid):
+                        eff_same = False
+                        d1, d2 = dict(e1[rid]), dict(e2.get(rid, ()))
+                        eff_diff += [[rid, k, repr(d1[k])[:80], repr(d2.get(k))[:80]] for k in d1 if d1[k] != d2.get(k)][:2]
+            except SystemExit:
+                pass
         nid += 1
-        recs.append({"t": "roundtrip", "id": nid, "name": sc["name"], "status": status, "oc1": oc1, "oc2": oc2, "rcOk": rc_ok,
+        recs.append({"t": "roundtrip", "id": nid, "name": sc["name"], "status": status, "oc1": oc1, "oc2": oc2, "rcOk": rc_ok, "effSame": eff_same, "effDiff": eff_diff[:6],
                      "diff": [[INT.text(x[0]), INT.text(x[1]), INT.text(x[2])] for x in oc1 if x not in oc2][:6]})
         # behaviour: the emitted configuration reproduces the run (check + fix) on sample inputs
         if status == "ok":
